@@ -532,7 +532,7 @@ def main(tier):
     rep = Report("C01", tier, "model_checking")
     quick = tier == "quick"
     variant = "ossl-asan" if quick else "ossl-plain"
-    deadline = time.time() + (600 if quick else 2400)
+    deadline = time.time() + (1200 if quick else 2400)
     cfgs = [("<=2 sessions on A, 1 on B; 9 object classes", dict(max_a=2, max_b=1), 30, 0)] if quick else \
            [("<=3 sessions on A, 1 on B; 9 object classes", dict(max_a=3, max_b=1), 40, 4)]
     runs, samples, counters = [], [], {}
